@@ -68,20 +68,28 @@ impl<T> Queue<T> {
     ) -> bool {
         // is `onto` the actual tail?
         let o = unsafe { onto.deref() };
+        #[cfg(circ_verif)]
+        crate::verif::pre(crate::verif::site::Q_PUSH_NEXT_LOAD);
         let next = o.next.load(Acquire, guard);
         if unsafe { next.as_ref().is_some() } {
             // if not, try to "help" by moving the tail pointer forward
+            #[cfg(circ_verif)]
+            crate::verif::pre(crate::verif::site::Q_PUSH_HELP_CAS);
             let _ = self
                 .tail
                 .compare_exchange(onto, next, Release, Relaxed, guard);
             false
         } else {
             // looks like the actual tail; attempt to link in `n`
+            #[cfg(circ_verif)]
+            crate::verif::pre(crate::verif::site::Q_PUSH_LINK_CAS);
             let result = o
                 .next
                 .compare_exchange(RawShared::null(), new, Release, Relaxed, guard)
                 .is_ok();
             if result {
+                #[cfg(circ_verif)]
+                crate::verif::pre(crate::verif::site::Q_PUSH_TAIL_CAS);
                 // try to move the tail pointer forward
                 let _ = self
                     .tail
@@ -100,6 +108,8 @@ impl<T> Queue<T> {
 
         loop {
             // We push onto the tail, so we'll start optimistically by looking there first.
+            #[cfg(circ_verif)]
+            crate::verif::pre(crate::verif::site::Q_PUSH_TAIL_LOAD);
             let tail = self.tail.load(Acquire, guard);
 
             // Attempt to push onto the `tail` snapshot; fails if `tail.next` has changed.
@@ -112,17 +122,27 @@ impl<T> Queue<T> {
     /// Attempts to pop a data node. `Ok(None)` if queue is empty; `Err(())` if lost race to pop.
     #[inline(always)]
     fn pop_internal(&self, guard: &Guard) -> Result<Option<T>, ()> {
+        #[cfg(circ_verif)]
+        crate::verif::pre(crate::verif::site::Q_POP_HEAD_LOAD);
         let head = self.head.load(Acquire, guard);
         let h = unsafe { head.deref() };
+        #[cfg(circ_verif)]
+        crate::verif::pre(crate::verif::site::Q_POP_NEXT_LOAD);
         let next = h.next.load(Acquire, guard);
         match unsafe { next.as_ref() } {
             Some(n) => unsafe {
+                #[cfg(circ_verif)]
+                crate::verif::pre(crate::verif::site::Q_POP_HEAD_CAS);
                 self.head
                     .compare_exchange(head, next, Release, Relaxed, guard)
                     .map(|_| {
+                        #[cfg(circ_verif)]
+                        crate::verif::pre(crate::verif::site::Q_POP_TAIL_LOAD);
                         let tail = self.tail.load(Relaxed, guard);
                         // Advance the tail so that we don't retire a pointer to a reachable node.
                         if head.ptr_eq(tail) {
+                            #[cfg(circ_verif)]
+                            crate::verif::pre(crate::verif::site::Q_POP_TAIL_CAS);
                             let _ = self
                                 .tail
                                 .compare_exchange(tail, next, Release, Relaxed, guard);
@@ -144,17 +164,27 @@ impl<T> Queue<T> {
         T: Sync,
         F: Fn(&T) -> bool,
     {
+        #[cfg(circ_verif)]
+        crate::verif::pre(crate::verif::site::Q_POP_HEAD_LOAD);
         let head = self.head.load(Acquire, guard);
         let h = unsafe { head.deref() };
+        #[cfg(circ_verif)]
+        crate::verif::pre(crate::verif::site::Q_POP_NEXT_LOAD);
         let next = h.next.load(Acquire, guard);
         match unsafe { next.as_ref() } {
             Some(n) if condition(unsafe { &*n.data.as_ptr() }) => unsafe {
+                #[cfg(circ_verif)]
+                crate::verif::pre(crate::verif::site::Q_POP_HEAD_CAS);
                 self.head
                     .compare_exchange(head, next, Release, Relaxed, guard)
                     .map(|_| {
+                        #[cfg(circ_verif)]
+                        crate::verif::pre(crate::verif::site::Q_POP_TAIL_LOAD);
                         let tail = self.tail.load(Relaxed, guard);
                         // Advance the tail so that we don't retire a pointer to a reachable node.
                         if head.ptr_eq(tail) {
+                            #[cfg(circ_verif)]
+                            crate::verif::pre(crate::verif::site::Q_POP_TAIL_CAS);
                             let _ = self
                                 .tail
                                 .compare_exchange(tail, next, Release, Relaxed, guard);
@@ -195,6 +225,37 @@ impl<T> Queue<T> {
             }
             backoff.spin();
         }
+    }
+}
+
+#[cfg(circ_verif)]
+impl<T> Queue<T> {
+    /// Walks the nodes reachable from `head.next` (no synchronization; callers are quiescent).
+    pub(crate) unsafe fn verif_dump_with<R>(&self, f: impl Fn(&T) -> R) -> Vec<R> {
+        let guard = &unprotected();
+        let mut out = Vec::new();
+        let head = self.head.load(Acquire, guard);
+        let mut cur = head.deref().next.load(Acquire, guard);
+        while let Some(n) = cur.as_ref() {
+            out.push(f(&*n.data.as_ptr()));
+            cur = n.next.load(Acquire, guard);
+        }
+        out
+    }
+    pub(crate) unsafe fn verif_dump(&self) -> (usize, usize, Vec<(usize, T)>)
+    where
+        T: Copy,
+    {
+        let guard = &unprotected();
+        let head = self.head.load(Acquire, guard);
+        let tail = self.tail.load(Acquire, guard);
+        let mut out = Vec::new();
+        let mut cur = head.deref().next.load(Acquire, guard);
+        while let Some(n) = cur.as_ref() {
+            out.push((cur.as_raw() as usize, *n.data.as_ptr()));
+            cur = n.next.load(Acquire, guard);
+        }
+        (head.as_raw() as usize, tail.as_raw() as usize, out)
     }
 }
 
